@@ -75,6 +75,9 @@ def mk_crs_spelling(spec):
         return CRS.from_epsg(v).to_wkt()
     if k == "obj_of_obj":
         return CRS(CRS(v))
+    if k == "wkt_fmt":      # WKT text as other tools / other pyproj options write it
+        fmt = spec["fmt"]
+        return CRS(v).to_wkt(pretty=True) if fmt == "pretty" else CRS(v).to_wkt(fmt)
     raise ValueError(k)
 
 
@@ -226,11 +229,13 @@ def rel_keys(a, b, tgt, kw):
 # ------------------------------------------------------------------ geometry pool
 out = {"geos": [], "pairs": [], "keys": [], "area_hist": [], "swath_hist": [], "stack_hist": []}
 key_tgt = None
+direct_toks = set()      # tokens pyproj itself returns for CRS(spelling).to_wkt()
 for i, g in enumerate(geo_specs):
     try:
         o = mk_geo(i)
         if g["t"] == "area":
             direct = CRS(mk_crs_spelling(g["crs"])).to_wkt()       # pyproj alone, not through pyresample
+            direct_toks.add(tok(direct))
             out["geos"].append({"tok": tok(direct), "tok_impl": tok(o.crs_wkt), "w": o.width, "h": o.height})
             if key_tgt is None:
                 key_tgt = o
@@ -404,6 +409,7 @@ while k < len(wkt_list):
     rt.append(tok(CRS(wkt_list[k]).to_wkt()))
     k += 1
 out["rt"] = rt
+out["direct_toks"] = sorted(direct_toks)
 out["n_tok"] = len(wkt_list)
 out["json"] = [json.dumps(kw, sort_keys=True) for kw in kwargs]
 json.dump(out, sys.stdout)
